@@ -15,7 +15,7 @@ H = {
     'sym': dict(name='sym', sources=['h_sym.c']),
     'wipe': dict(name='wipe', sources=['h_wipe.cpp', 'trng_tape.c'], cxx=True, extra_flags=['-O3']),
     'abi': dict(name='abi', sources=['h_abi.c', 'tramp_x86_64.S', 'trng_tape.c']),
-    'mt': dict(name='mt', sources=['h_mt.c'], libs=['-lpthread']),
+    'mt': dict(name='mt', sources=['h_mt.c', 'devrandom_block.c'], libs=['-lpthread', '-ldl']),   # random device files unopenable: in the dead-source run getrandom() is the whole source
     'ct': dict(name='ct', sources=['h_ct.c'], extra_flags=['-O1']),
     'prng': dict(name='prng', sources=['h_prng.c', 'devrandom_block.c'], libs=['-ldl']),   # the scripted getrandom() is the only system source: the random device files cannot be opened
     'hex': dict(name='hex', sources=['h_hex.cpp'], cxx=True),
